@@ -273,7 +273,8 @@ fn session_case(ctx: &mut Ctx, r: &mut Rng) -> Result<(), Fail> {
                 // persists must stay reference nodes
                 let mut alts = crate::mutate::alterations(&p, r, 1);
                 r.shuffle(&mut alts);
-                for alt in alts.iter().filter(|a| a.must_refuse()).take(3) {
+                let (vals, others): (Vec<_>, Vec<_>) = alts.iter().filter(|a| a.must_refuse()).partition(|a| a.kind().starts_with("value-"));
+                for alt in vals.iter().chain(others.iter().take(3)) {
                     if let Some(q) = crate::mutate::apply(&p, alt) {
                         let _ = crate::repl::apply_proof(sess.pair.replica.core(), &q);
                         ctx.count("corrupted_proofs_offered_to_replica");
